@@ -1408,7 +1408,7 @@ class Unserializer:
             while True:
                 opcode = self.stream.read(1)
                 if not opcode:
-                    raise EOFError
+                    raise EOFError("serialized data ended before STOP")
                 try:
                     loader = self.num2func[opcode]
                 except KeyError:
@@ -1446,7 +1446,10 @@ class Unserializer:
 
     def load_longint(self) -> None:
         s = self._read_byte_string()
-        self.stack.append(int(s))
+        try:
+            self.stack.append(int(s))
+        except ValueError:
+            raise LoadError("invalid long integer %r" % s[:20]) from None
 
     num2func[opcode.LONGINT] = load_longint
 
@@ -1456,25 +1459,39 @@ class Unserializer:
     num2func[opcode.LONGLONG] = load_longlong
 
     def load_float(self) -> None:
-        binary = self.stream.read(FLOAT_FORMAT_SIZE)
+        binary = self._read_exact(FLOAT_FORMAT_SIZE)
         self.stack.append(struct.unpack(FLOAT_FORMAT, binary)[0])
 
     num2func[opcode.FLOAT] = load_float
 
     def load_complex(self) -> None:
-        binary = self.stream.read(COMPLEX_FORMAT_SIZE)
+        binary = self._read_exact(COMPLEX_FORMAT_SIZE)
         self.stack.append(complex(*struct.unpack(COMPLEX_FORMAT, binary)))
 
     num2func[opcode.COMPLEX] = load_complex
 
+    def _read_exact(self, numbytes: int) -> bytes:
+        if numbytes < 0:
+            raise LoadError("negative length %d" % numbytes)
+        data = self.stream.read(numbytes)
+        if len(data) != numbytes:
+            raise EOFError("expected %d bytes, got %d" % (numbytes, len(data)))
+        return data
+
     def _read_int4(self) -> int:
-        value: int = struct.unpack("!i", self.stream.read(4))[0]
+        value: int = struct.unpack("!i", self._read_exact(4))[0]
         return value
 
     def _read_byte_string(self) -> bytes:
         length = self._read_int4()
-        as_bytes = self.stream.read(length)
+        as_bytes = self._read_exact(length)
         return as_bytes
+
+    def _decode(self, as_bytes: bytes) -> str:
+        try:
+            return as_bytes.decode("utf-8")
+        except UnicodeDecodeError:
+            raise LoadError("string is not valid utf-8") from None
 
     def load_py3string(self) -> None:
         as_bytes = self._read_byte_string()
@@ -1482,7 +1499,7 @@ class Unserializer:
             # XXX Should we try to decode into latin-1?
             self.stack.append(as_bytes)
         else:
-            self.stack.append(as_bytes.decode("utf-8"))
+            self.stack.append(self._decode(as_bytes))
 
     num2func[opcode.PY3STRING] = load_py3string
 
@@ -1503,7 +1520,7 @@ class Unserializer:
     num2func[opcode.BYTES] = load_bytes
 
     def load_unicode(self) -> None:
-        self.stack.append(self._read_byte_string().decode("utf-8"))
+        self.stack.append(self._decode(self._read_byte_string()))
 
     num2func[opcode.UNICODE] = load_unicode
 
@@ -1518,7 +1535,18 @@ class Unserializer:
             raise LoadError("not enough items for setitem")
         value = self.stack.pop()
         key = self.stack.pop()
-        self.stack[-1][key] = value  # type: ignore[index]
+        target = self.stack[-1]
+        if type(target) is list:
+            if type(key) is not int or not 0 <= key < len(target):
+                raise LoadError("invalid list index %r" % (key,))
+            target[key] = value
+        elif type(target) is dict:
+            try:
+                target[key] = value
+            except TypeError:
+                raise LoadError("unhashable dictionary key") from None
+        else:
+            raise LoadError("setitem on a non-container")
 
     num2func[opcode.SETITEM] = load_setitem
 
@@ -1530,7 +1558,10 @@ class Unserializer:
     def _load_collection(self, type_: type) -> None:
         length = self._read_int4()
         if length:
-            res = type_(self.stack[-length:])
+            try:
+                res = type_(self.stack[-length:])
+            except TypeError:
+                raise LoadError("unhashable set member") from None
             del self.stack[-length:]
             self.stack.append(res)
         else:
@@ -1558,7 +1589,8 @@ class Unserializer:
 
     def load_channel(self) -> None:
         id = self._read_int4()
-        assert self.channelfactory is not None
+        if self.channelfactory is None:
+            raise LoadError("cannot load a channel without a gateway")
         newchannel = self.channelfactory.new(id)
         self.stack.append(newchannel)
 
